@@ -49,4 +49,14 @@ example : ∃ c, (PS.clientReply id some [7] ⟨writeMessage (chunkMessage (List
     delivers some c [7] := ⟨_, rfl, rfl⟩
 example : (PS.clientReply id some [8] ⟨writeMessage (chunkMessage (List.replicate 32 0) 1 [7]), 0⟩).1 = .fail .invalid := rfl
 
+/-- **regenerated obligation** (harness/extract/protofacts.go): `RequestChunk` builds the chunk it returns with
+    `NewChunkFromStorage(<the requested id>, m.Body[40:], {Compressor}, false)` behind the guard
+    `len(m.Body) < 40`, and has no other way of returning a chunk -/
+theorem gen_proto_client_verifies :
+    Gen.protoRequestCtorArgs = ["id", "Body[40:]", "[]converter{Compressor{}}", "false"] ∧
+    Gen.protoRequestArms = ["CaProtocolMissing→ChunkMissing", "CaProtocolChunk→err,NewChunkFromStorage", "default→err"] ∧
+    Gen.protoClientChunkGuardDominates = true ∧ Gen.protoClientChunkSliceLo ≤ Gen.protoClientChunkGuard ∧
+    Gen.site_shape_proto_RequestCtorArgs_found = true ∧ Gen.site_shape_proto_RequestArms_found = true := by
+  decide
+
 end Desync.C03
